@@ -20,7 +20,7 @@ pkgs=$(for d in $demos; do echo ./$(dirname $d); done | sort -u)
 names=$(grep -h "^func Test" $demos | sed 's/func \(Test[A-Za-z0-9_]*\).*/\1/' | paste -sd'|')
 echo "== demo with change (must FAIL)"; go test -vet=off -count=1 $pkgs -run "^($names)\$" > $out/demo_with.log 2>&1; w=$?
 tail -3 $out/demo_with.log
-echo "== demo without change (must PASS)"; git stash -q; go test -vet=off -count=1 $pkgs -run "^($names)\$" > $out/demo_without.log 2>&1; wo=$?; git stash pop -q
+echo "== demo without change (must PASS)"; git apply -R $out/patch.diff; go test -vet=off -count=1 $pkgs -run "^($names)\$" > $out/demo_without.log 2>&1; wo=$?; git apply $out/patch.diff
 tail -3 $out/demo_without.log
 for d in $demos; do mkdir -p $out/demo/$(dirname $d); cp $d $out/demo/$d; done
 echo "demo_with_exit=$w demo_without_exit=$wo suite_clean=$([ -s $out/suite.log ] && echo no || echo yes)"
